@@ -14,6 +14,18 @@ CHECKS = {
          "Bounded: request sizes 1..3(4) units, scripts of length <=3(4).",
     technique="TLA+ spec + TLC model checking; TLC-generated fault scripts replayed into the real code; TLC trace validation",
     ref="6/C17"),
+ "C18": dict(
+    category="model_checking",
+    text="Pool.tla (atomic design: safety + liveness under fairness) and PoolImpl.tla (PlusCal, one label per statement of "
+         "Pool.process/notify_done/close and Worker.run, with the lock) model-checked by TLC; TLC enumerates environment scripts "
+         "(submit/release/close orders); the real Pool and Worker threads run them under a deterministic line-level scheduler "
+         "(preemption-bounded DFS, then seeded random schedules); every distinct call/return history is validated by TLC against "
+         "Trace_Pool.tla, which searches for positions of the atomic effects (linearizability). The refusal path is also driven end to "
+         "end through the real thread-pool server over the in-memory transport.",
+    note="Trusted: sys.settrace line events as yield points (no races below source-line granularity, GIL), cooperative Lock/Event "
+         "shims installed as svr_threads.threading, TLC. Bounded: pool sizes 1..3, <=4 jobs, preemption bound 1 (quick) / 2 (thorough).",
+    technique="TLA+/PlusCal spec + TLC model checking; deterministic schedule exploration of the real threads; TLC trace validation (linearizability search)",
+    ref="6/C18"),
 }
 NOT_YET = {}
 ALL = ["C%02d" % i for i in range(1, 21)]
